@@ -6,6 +6,8 @@
  - random instances: lower_bound_bins <= n_bins of every packing produced by both decoders; >= area bound."""
 import random
 
+from bounded.util import RealCodeTimeout, time_limit
+
 import numpy as np
 
 
@@ -26,7 +28,7 @@ def harness(tier, seed):
     from moptipyapps.binpacking2d.instance import Instance
     from moptipyapps.binpacking2d.packing import Packing
     rng = random.Random(seed + 3)
-    viol, samples = [], []
+    viol, samples, slow = [], [], []
     evals, distinct = 0, set()
     reps = 300 if tier == "quick" else 6000
     for _ in range(reps):
@@ -82,7 +84,12 @@ def harness(tier, seed):
     for (W, H, items, fits) in ((10 ** 12, 10 ** 4, [[10 ** 12, 1, 10 ** 4], [1, 1, 1]], 2),
                                 (10 ** 12, 10 ** 4, [[10 ** 12, 1, 10 ** 4]], 1),
                                 (10 ** 4, 10 ** 12, [[1, 10 ** 12, 2 * 10 ** 4], [1, 1, 1]], 3)):
-        inst = Instance("huge", W, H, items)
+        try:
+            with time_limit(60.0):      # the unchanged constructor needs well under a second for these
+                inst = Instance("huge", W, H, items)
+        except RealCodeTimeout:
+            slow.append({"W": W, "H": H, "items": items})
+            continue
         area = sum(w * h * c for w, h, c in items)
         geo = -(-area // (W * H))
         evals += 1
@@ -97,4 +104,5 @@ def harness(tier, seed):
             "rule": "instances built by guillotine-cutting k bins (bins 1..40, k <= 5, random rotations, optional waste): bound <= k, "
                     ">= area bound, == k when waste-free; random instances: bound <= bins of decoded packings; distinct = "
                     "distinct constructed instances",
-            "samples": samples, "violations": viol, "exhaustive": False}
+            "samples": samples + [{"no-verdict-constructor-did-not-return-within-60s": x} for x in slow[:2]],
+            "violations": viol, "exhaustive": False}
